@@ -277,6 +277,38 @@ func c16Parsers() []*c16Parser {
 				f := &rateFlag{&vegeta.Rate{Freq: 50, Per: time.Second}}
 				return c16Err(f.Set(string(in)))
 			}},
+		// the spellings Go's number parsers give a special meaning to (strconv: nan, inf, hex floats, underscores, exponents)
+		{name: "flag-rate-number-words", group: "rate", memBase: base,
+			tokens: []string{"nan", "NaN", "inf", "+Inf", "-inf", "Infinity", "1e3", "0x1p4", "1_0", "0b1", "/", "1s", "s", ".5"},
+			seeds:  str("nan/1s", "inf", "0x10/s"),
+			run: func(in []byte, _ *c16Reader) c16Out {
+				f := &rateFlag{&vegeta.Rate{Freq: 50, Per: time.Second}}
+				return c16Err(f.Set(string(in)))
+			}},
+		{name: "buckets-number-words", group: "buckets", memBase: base,
+			tokens: []string{"[", "]", ",", "nan", "NaN", "inf", "+Inf", "-inf", "1e3", "0x1p4", "1_0", "ms", "s", ".5"},
+			seeds:  str("[0,nan]", "[inf]", "[1e3ms]"),
+			run: func(in []byte, _ *c16Reader) c16Out {
+				var b vegeta.Buckets
+				if err := b.UnmarshalText(in); err != nil {
+					return c16Out{0, err}
+				}
+				return c16Out{len(b), nil}
+			}},
+		{name: "flag-max-body-number-words", group: "max-body", memBase: base,
+			tokens: []string{"nan", "NaN", "inf", "+Inf", "-inf", "1e3", "0x1p4", "0x10", "1_0", " ", "KB", "B", ".5", "-"},
+			seeds:  str("nan", "inf KB", "1e3B"),
+			run: func(in []byte, _ *c16Reader) c16Out {
+				var n int64
+				return c16Err((&maxBodyFlag{&n}).Set(string(in)))
+			}},
+		{name: "flag-dns-ttl-number-words", group: "dns-ttl", memBase: base,
+			tokens: []string{"nan", "NaN", "inf", "+Inf", "-inf", "1e3", "0x1p4", "1_0", "s", "ms", ".5", "-", "+"},
+			seeds:  str("nan", "infs", "1e3ms"),
+			run: func(in []byte, _ *c16Reader) c16Out {
+				var d time.Duration
+				return c16Err((&dnsTTLFlag{&d}).Set(string(in)))
+			}},
 		{name: "flag-header", group: "header", memBase: base,
 			tokens: []string{"K", ":", " ", "v", "\n", "\r", "é", "\x00", "::", "-"},
 			seeds:  str("K: v", "Content-Type: text/plain; charset=utf-8", "K :  v  "),
